@@ -167,6 +167,23 @@ def mc_reclaim(d, tier):
         out.append({"profile": f"MC_Reclaim blocks={c['blocks']} flushers={c['fl']} reclaimers={c['rc']}", "kind": "edge",
                     "algo": "-", "states": r["distinct"], "transitions": r["generated"], "scripts": 0, "matched": 0,
                     "mismatched": 0, "roots": 0, "panics": 0, "nontrivial": 0, "by_field": {}})
+    # liveness under weak fairness of the flusher and reclaimer steps, without a state constraint (the writes are
+    # bounded inside the action, so the graph is finite): every flusher that waits for a clean block gets one
+    live = [dict(blocks=3, fl=2, rc=1, w=5)] + ([dict(blocks=4, fl=2, rc=2, w=6), dict(blocks=3, fl=3, rc=1, w=5)]
+                                               if tier == "thorough" else [])
+    for i, c in enumerate(live):
+        name = f"RCL_{i}.cfg"
+        with open(os.path.join(d, name), "w") as f:
+            f.write("\n".join(["SPECIFICATION FairSpec", "CONSTANTS", f"  Blocks = {core.tla_value(set(range(c['blocks'])))}",
+                               f"  Flushers = {core.tla_value(set(range(1, c['fl'] + 1)))}", f"  Reclaimers = {c['rc']}",
+                               "  Threshold = 1", "  Keys = {1}", "  BlockCap = 1", "  Reinsert = {}",
+                               f"  MaxWrites = {c['w']}", "  MaxReclaims = 99", "INVARIANT Inv",
+                               "PROPERTY EveryWaiterServed", "CHECK_DEADLOCK FALSE"]) + "\n")
+        r = core.run_tlc(d, "MC_Reclaim", name, workers=6, timeout=1800)
+        core.tlc_must_pass(r, f"MC_Reclaim liveness[{c}]")
+        out.append({"profile": f"MC_Reclaim liveness EveryWaiterServed blocks={c['blocks']} flushers={c['fl']}", "kind": "edge",
+                    "algo": "-", "states": r["distinct"], "transitions": r["generated"], "scripts": 0, "matched": 0,
+                    "mismatched": 0, "roots": 0, "panics": 0, "nontrivial": 0, "by_field": {}})
     return out
 
 
